@@ -17,7 +17,7 @@ Proof. intros [| |] b; simpl; intuition discriminate. Qed.
 Lemma check_accept : forall ok al, check ok al = Accept <-> ok = true.
 Proof. intros [|] al; simpl; intuition discriminate. Qed.
 
-Lemma wait_unless_accept : forall b x, (if b then Wait else x) = Accept <-> b = false /\ x = Accept.
+Lemma wait_unless_accept : forall (b : bool) (x : verdict), (if b then Wait else x) = Accept <-> b = false /\ x = Accept.
 Proof. intros [|] x; intuition discriminate. Qed.
 
 Lemma is_accept_true : forall v, is_accept v = true <-> v = Accept.
@@ -60,13 +60,23 @@ Corollary client_accept_cert_suite :
 Proof.
   intros c v Ha Hs. apply client_accept_implies_checks in Ha. unfold client_required, sv_x509_ok in Ha.
   rewrite Hs in Ha. cbn [is_cert] in Ha.
-  repeat (apply andb_true_iff in Ha; destruct Ha as [Ha ?]).
-  repeat split; auto.
-  - intros Hk. rewrite Hk in *. cbn in *. repeat (match goal with H : _ && _ = true |- _ => apply andb_true_iff in H; destruct H end). auto.
-  - intros Hk. rewrite Hk in *. cbn in *. repeat (match goal with H : _ && _ = true |- _ => apply andb_true_iff in H; destruct H end). auto.
-  - intros Hk. rewrite Hk in *. cbn in *. repeat (match goal with H : _ && _ = true |- _ => apply andb_true_iff in H; destruct H end). auto.
-  - intros Hk. rewrite Hk in *. cbn in *. auto.
-  - intros Hk. rewrite Hk in *. cbn in *. auto.
+  destruct (sv_cert_msg v); cbn in Ha; try discriminate.
+  destruct (sv_certs_nonempty v); cbn in Ha; try discriminate.
+  destruct (sv_ske_msg v); cbn in Ha; try discriminate.
+  destruct (sv_scheme_allowed v); cbn in Ha; try discriminate.
+  destruct (sv_sig_valid v); cbn in Ha; try discriminate.
+  destruct (cc_skip_verify c); cbn in Ha;
+    (destruct (sv_chain_ok v); cbn in Ha; try discriminate);
+    (destruct (sv_name_ok v); cbn in Ha; try discriminate);
+    (destruct (sv_time_ok v); cbn in Ha; try discriminate);
+    (destruct (sv_certalgs_ok v); cbn in Ha; try discriminate);
+    (destruct (cc_has_vpc c); cbn in Ha; try discriminate);
+    (destruct (sv_vpc_ok v); cbn in Ha; try discriminate);
+    (destruct (cc_has_vc c); cbn in Ha; try discriminate);
+    (destruct (sv_vc_ok v); cbn in Ha; try discriminate);
+    (destruct (sv_fin_arrives v); cbn in Ha; try discriminate);
+    (destruct (sv_fin_valid v); cbn in Ha; try discriminate);
+    repeat split; auto; intros; discriminate.
 Qed.
 
 (* PSK suites: the only evidence is the server's Finished under the PSK-derived master secret
